@@ -29,3 +29,8 @@ Qed.
 Definition run_required (c : list string * list (string * bool)) : list tuple :=
   let (supplied, declared) := c in
   map (fun d => tuple_of_string (dg_msg d)) (missing_required (1, 1)%N (fun n => n) supplied declared).
+
+(* error.go ByErrorPosition.Less under sort.Stable, one file: the tags of the diagnostics in the
+   order of the model's stable sort by (line, column) *)
+Definition run_sort (c : list (N * N * N)) : list tuple :=
+  [map snd (ssort (fun x : posn * N => fst x) pos_leb c)].
